@@ -262,7 +262,6 @@ func c09Run(c *Ctx) {
 	c.Held(cell, shape)
 }
 
-
 // injectFault injects one fault of the given kind into the valid scenario sc at a random legal item position.
 // It returns the faulted items and the documented error type. ok=false: the fault does not apply (c.Unspec was called).
 func injectFault(c *Ctx, r *Rand, d *Decl, sc *Scenario, fault string) (items []*Item, wantType flags.ErrorType, pos int, pi int, wantErr bool, ok bool) {
